@@ -18,11 +18,19 @@ finite map the same sequence denotes; `PT.insert` / `PT.delete` mirror trie.go c
   root_canon        the trie equals the independent construction `canonOf` from its live entries (hence so does its hash)
   root_history_independent   two histories that denote the same map give the same trie and the same root hash
 
+Implementation-shaped model (`WN` with dirty flags, cached hashes, cached branch weights; `insert` / `delete` of
+Verif.Model.WmptOps; `abs` = the spec tree of an in-memory node):
+
+  abs_update / abs_delete   the abstraction commutes with insert and delete (same result class, same spec tree)
+  C09_model        after ANY history of Update / Delete with 32-byte keys on an in-memory trie, the model trie represents
+                   the spec trie of the history and `Weight()` = the sum of the live weights
+
 See notes/C09.md for what ties these to the implementation-shaped model and what is checked by correspondence only.
 -/
 import Verif.Lemmas.WmptSpec
 import Verif.Lemmas.WmptRun
 import Verif.Lemmas.WmptCanon
+import Verif.Lemmas.WmptModelRun
 namespace Verif.Props.C09
 open Verif.Wmpt
 
@@ -121,6 +129,37 @@ theorem root_history_independent (H : Bytes → Bytes) (n : Nat) (ops₁ ops₂ 
     reach_unique (run_reach n ops₁ h₁) (run_reach n ops₂ h₂) (fun q hq => by
       rw [run_lookup h₁ q hq, run_lookup h₂ q hq, hm])
   exact ⟨this, by rw [this]⟩
+
+/-! ### the implementation-shaped model -/
+
+/-- `insert` on an in-memory node is `PT.insert` on its spec tree; it cannot fail for keys of the trie's key length -/
+theorem abs_update (hasDb : Bool) (s : Store) (fuel m : Nat) (n : WN) (t : PT) (key : List Nib) (v : Bytes) (w : Nat)
+    (ha : abs n = some t) (hu : Uniform m t) (hk : key.length = m) (hf : key.length + 1 ≤ fuel) :
+    (insert hasDb s fuel n key (.value [] v w true)).err = none ∧
+      abs (insert hasDb s fuel n key (.value [] v w true)).node = some (t.insert key v w) :=
+  insert_ok ha hu hk hf
+
+/-- `delete` on an in-memory node is `PT.delete` on its spec tree: not-found exactly when the key is absent (and then
+    nothing changes), otherwise the spec tree of the result is the result of `PT.delete` -/
+theorem abs_delete (H : Bytes → Bytes) (hasDb : Bool) (s : Store) (fuel m : Nat) (n : WN) (t : PT) (key : List Nib)
+    (ha : abs n = some t) (hn : NoEmpty n) (hu : Uniform m t) (hk : key.length = m) (hf : key.length + 1 ≤ fuel) :
+    ((delete H hasDb s fuel n key).err = some .notFound ∧ t.delete key = none ∧
+        (delete H hasDb s fuel n key).node = n) ∨
+    ((delete H hasDb s fuel n key).err = none ∧
+      ∃ t', t.delete key = some t' ∧ abs (delete H hasDb s fuel n key).node = some t') := by
+  rcases Verif.Wmpt.abs_delete (H := H) (hasDb := hasDb) (s := s) ha hn hu hk hf with ⟨a, b, c, _⟩ | ⟨a, t', b, c, _⟩
+  · exact .inl ⟨a, b, c⟩
+  · exact .inr ⟨a, t', b, c⟩
+
+/-- After any history of `Update` (non-empty values) and `Delete` with 32-byte keys on an in-memory trie, the model
+    trie represents the spec trie of that history, and `Weight()` is the sum of the weights of the live keys. -/
+theorem C09_model (H : Bytes → Bytes) (ops : List Op) (hwf : OpsWF ops) :
+    abs (normRoot (mRun H ops).root) = some (ptRun ops) ∧
+    (mRun H ops).weight = entriesWeight (ptRun ops).entries := by
+  have g := mRun_good H ops hwf
+  refine ⟨g.abs_eq, ?_⟩
+  rw [← run_weight ops, ← g.weight, weight_normRoot]
+  rfl
 
 /-- non-vacuity of the history theorems: delete-then-reinsert and a different insertion order give the same trie -/
 example :
